@@ -352,3 +352,65 @@ theorem membership_dense (l : List Int) (m : Int) (i j : Nat) (hi : i < l.length
     simp [hp, this]
 
 end SkNet.Convert
+
+/-! ### get_norms / normalize with p = 2 -/
+
+namespace SkNet.LinOp
+
+theorem vget_norms2sq (a : Mat) (i : Nat) : vget (norms2sq a) i = sumTo a.nCol (fun j => a.get i j * a.get i j) := by
+  unfold norms2sq Mat.rowSums
+  rw [Mat.vget_mulVec, Mat.ofFn_nCol]
+  apply sumTo_congr; intro j hj
+  rw [Mat.get_ofFn]
+  by_cases hi : i < a.nRow
+  · simp [hi, hj]
+  · simp [hi, hj, Mat.get_of_row_ge j (Nat.le_of_not_lt hi)]
+
+theorem get_normalize2 (a : Mat) (s : Vec) (i j : Nat) :
+    (normalize2 a s).get i j = pinv (vget s i) * a.get i j := by
+  unfold normalize2
+  rw [Mat.get_scaleRows, vget_pinvVec]
+
+/-- **normalize(matrix, p=2)**, given `s = np.sqrt(Σ_j a_ij²)` with the contract `s ≥ 0`, `s² = Σ_j a_ij²`:
+rows of 2-norm 1, null rows stay null, each row a non-negative multiple of the input row -/
+theorem normalize2_spec (a : Mat) (s : Vec) (i : Nat) (hs0 : 0 ≤ vget s i)
+    (hs : vget s i * vget s i = vget (norms2sq a) i) :
+    (sumTo a.nCol (fun j => (normalize2 a s).get i j * (normalize2 a s).get i j)
+        = if vget (norms2sq a) i = 0 then 0 else 1) ∧
+    (∀ j, (normalize2 a s).get i j * vget s i = a.get i j) ∧
+    (∀ j, 0 ≤ (normalize2 a s).get i j * a.get i j) := by
+  have hsq : ∀ j, j < a.nCol → vget (norms2sq a) i = 0 → a.get i j = 0 := by
+    intro j hj h0
+    rw [vget_norms2sq] at h0
+    have := (sumTo_eq_zero_iff (fun k _ => mul_self_nonneg (a.get i k))).mp h0 j hj
+    exact mul_self_eq_zero.mp this
+  by_cases h0 : vget s i = 0
+  · have hn : vget (norms2sq a) i = 0 := by rw [← hs, h0]; ring
+    refine ⟨?_, fun j => ?_, fun j => ?_⟩
+    · rw [if_pos hn]
+      apply sumTo_eq_zero; intro j _
+      rw [get_normalize2, h0]; simp [pinv]
+    · rw [get_normalize2, h0]
+      by_cases hj : j < a.nCol
+      · rw [hsq j hj hn]; ring
+      · rw [Mat.get_of_col_ge i (Nat.le_of_not_lt hj)]; ring
+    · rw [get_normalize2, h0]; simp [pinv]
+  · have hn : vget (norms2sq a) i ≠ 0 := by
+      rw [← hs]; exact mul_ne_zero h0 h0
+    have hp : pinv (vget s i) * vget s i = 1 := pinv_mul_self h0
+    refine ⟨?_, fun j => ?_, fun j => ?_⟩
+    · rw [if_neg hn]
+      have e : ∀ j, (normalize2 a s).get i j * (normalize2 a s).get i j
+          = (pinv (vget s i) * pinv (vget s i)) * (a.get i j * a.get i j) := by
+        intro j; rw [get_normalize2]; ring
+      rw [sumTo_congr (fun j _ => e j), sumTo_mul_left, ← vget_norms2sq, ← hs]
+      calc pinv (vget s i) * pinv (vget s i) * (vget s i * vget s i)
+          = (pinv (vget s i) * vget s i) * (pinv (vget s i) * vget s i) := by ring
+        _ = 1 := by rw [hp]; ring
+    · rw [get_normalize2, mul_comm (pinv _), mul_assoc, hp]; ring
+    · rw [get_normalize2]
+      have : 0 ≤ pinv (vget s i) := pinv_nonneg hs0
+      calc 0 ≤ pinv (vget s i) * (a.get i j * a.get i j) := mul_nonneg this (mul_self_nonneg _)
+        _ = pinv (vget s i) * a.get i j * a.get i j := by ring
+
+end SkNet.LinOp
